@@ -1,5 +1,8 @@
-(* Proofs for C02: the lock set is a subset of the load stack, a loop error exhibits a real cycle,
-   ranked (acyclic) graphs terminate without loop errors; refutations of the full statement. *)
+(* Proofs for C02 (code after the fixes d80c9be url normalisation and 2454c18 load-css lock):
+   - the lock set is a subset of the load stack; a loop error exhibits a real cycle (soundness);
+   - a compilation that returns css has executed an acyclic part of the load graph that contains
+     everything reachable from the root (completeness: a reachable cycle is never absorbed);
+   - with a loader that knows finitely many names the compilation terminates (fuel |names|+1). *)
 From Coq Require Import String List Bool Arith Ascii NArith ZArith Lia Relations.
 From RV Require Import Base.ListX Gen.Candidates Model.Load Model.LoadRun.
 Import ListNotations.
@@ -42,28 +45,53 @@ Qed.
 
 Lemma try_names_found_pure s names p id rd s' :
   try_names orc s names = FFound p id rd s' ->
-  resolve_name names = Some (p, id) /\ loading s' = loading s /\ cache s' = cache s.
+  resolve_name names = Some (p, id) /\ loading s' = loading s /\ cache s' = cache s /\ trace s' = trace s.
 Proof.
   revert s. induction names as [|a r IH]; intros s; cbn; [discriminate|].
   unfold orc, orc_of at 1. destruct (lookup a) eqn:E; cbn.
   - intros H; inversion H; subst. auto.
-  - intros H. apply IH in H as (H1 & H2 & H3). cbn in H2, H3. auto.
+  - intros H. apply IH in H as (H1 & H2 & H3 & H4). cbn in H2, H3, H4. auto.
 Qed.
 
 Lemma try_names_none_pure s names s' :
-  try_names orc s names = FNone s' -> loading s' = loading s /\ cache s' = cache s.
+  try_names orc s names = FNone s' ->
+  resolve_name names = None /\ loading s' = loading s /\ cache s' = cache s /\ trace s' = trace s.
 Proof.
   revert s. induction names as [|a r IH]; intros s; cbn.
   - intros H; inversion H; auto.
-  - unfold orc, orc_of at 1. destruct (lookup a); [discriminate|]. intros H. apply IH in H as [H1 H2]. auto.
+  - unfold orc, orc_of at 1. destruct (lookup a); [discriminate|]. cbn. intros H.
+    apply IH in H as (H0 & H1 & H2 & H3). auto.
 Qed.
 
-(* the load graph over the names files are known by *)
+(* the load graph over the names files are known by: p loads q when a directive of the file p
+   denotes, resolved as Context::find_file resolves it from p, is found under the name q *)
 Definition nedge (c p : string) : Prop :=
   exists idc d k u id, lookup c = Some idc /\ In d (content idc) /\ dir_load d = Some (k, u) /\
     resolve_name (find_names c k u) = Some (p, id).
 
+Lemma find_file_cases cur k u s :
+  match find_file orc cur k u s with
+  | LFile p id s1 => loading s1 = p :: loading s /\ mem p (loading s) = false /\ cache s1 = cache s
+                     /\ trace s1 = trace s /\ resolve_name (find_names cur k u) = Some (p, id)
+  | LNone s1 => loading s1 = loading s /\ cache s1 = cache s /\ trace s1 = trace s
+                /\ resolve_name (find_names cur k u) = None
+  | LErr (ELoop _) _ => exists p id, resolve_name (find_names cur k u) = Some (p, id)
+                                     /\ mem p (loading s) = true
+  | LErr _ _ => True
+  end.
+Proof.
+  unfold find_file. destruct (try_names orc s _) as [p id rd s1|s1|s1] eqn:T; [| |exact I].
+  - apply try_names_found_pure in T as (R & L & C & Tr).
+    destruct (negb (known_format p)); [exact I|]. destruct (negb rd); [exact I|].
+    destruct (mem p (loading s1)) eqn:M; rewrite L in M.
+    + exists p, id. auto.
+    + cbn. rewrite L. auto.
+  - apply try_names_none_pure in T as (R & L & C & Tr). auto.
+Qed.
+
 Variable root : string.
+
+(* ================= soundness of loop errors ================= *)
 
 (* a load stack: innermost first, every frame loaded by a directive of the frame below *)
 Inductive chain : list string -> Prop :=
@@ -86,25 +114,6 @@ Definition spec_load (loadf : bool -> string -> kind -> string -> state -> res) 
     In d (content idc) -> dir_load d = Some (k, u) ->
     post s (loadf unq cur k u s).
 
-Lemma find_file_cases cur k u s :
-  match find_file orc cur k u s with
-  | LFile p id s1 => loading s1 = p :: loading s /\ mem p (loading s) = false
-                     /\ resolve_name (find_names cur k u) = Some (p, id)
-  | LNone s1 => loading s1 = loading s
-  | LErr (ELoop _) _ => exists p id, resolve_name (find_names cur k u) = Some (p, id)
-                                     /\ mem p (loading s) = true
-  | LErr _ _ => True
-  end.
-Proof.
-  unfold find_file. destruct (try_names orc s _) as [p id rd s1|s1|s1] eqn:T; [| |exact I].
-  - apply try_names_found_pure in T as (R & L & _).
-    destruct (negb (known_format p)); [exact I|]. destruct (negb rd); [exact I|].
-    destruct (mem p (loading s1)) eqn:M; rewrite L in M.
-    + exists p, id. auto.
-    + cbn. rewrite L. auto.
-  - apply try_names_none_pure in T as [L _]. exact L.
-Qed.
-
 Lemma exec_body_post loadf : spec_load loadf ->
   forall b st cur idc s,
     chain (cur :: st) -> incl (loading s) (cur :: st) -> lookup cur = Some idc ->
@@ -126,48 +135,47 @@ Proof.
     + specialize (IH st cur idc (emit m s) Hc Hi Hl Hr). exact IH.
 Qed.
 
+Lemma exec_file_post loadf : spec_load loadf ->
+  forall k st p id s1, chain (p :: st) -> incl (loading s1) (p :: st) -> lookup p = Some id ->
+    post s1 (exec_file content loadf k p id s1).
+Proof.
+  intros HL k st p id s1 Hc Hi Hl. unfold exec_file.
+  pose proof (exec_body_post _ HL (content id) st p id (note (EvBody k p id) s1) Hc Hi Hl (fun d H => H)) as P.
+  destruct (exec_body loadf p (content id) _); cbn in P |- *; exact P.
+Qed.
+
 Lemma load_post fuel : spec_load (load orc content fuel).
 Proof.
   induction fuel as [|f IH]; intros unq st cur idc d k u s Hc Hi Hl Hd Hk; cbn [load]; [exact I|].
   pose proof (find_file_cases cur k u s) as F.
   destruct (find_file orc cur k u s) as [p id s1|s1|e s1].
-  - destruct F as (L1 & M & R).
+  - destruct F as (L1 & M & C1 & T1 & R).
     assert (Hedge : nedge cur p) by (exists idc, d, k, u, id; auto).
     assert (Hc' : chain (p :: cur :: st)) by (constructor; assumption).
     assert (Hlp : lookup p = Some id) by (eapply resolve_name_lookup; eauto).
-    assert (Hb : forall d0, In d0 (content id) -> In d0 (content id)) by auto.
     assert (Hi1 : incl (p :: loading s) (p :: cur :: st)).
     { intros x [<-|Hx]; [left; reflexivity|right; apply Hi; exact Hx]. }
-    assert (Hi2 : incl (loading s) (p :: cur :: st)) by (intros x Hx; right; apply Hi; exact Hx).
+    assert (B : forall kk s0, loading s0 = loading s1 ->
+                post s0 (exec_file content (load orc content f) kk p id s0)).
+    { intros kk s0 E. apply (exec_file_post _ IH kk (cur :: st)); auto. rewrite E, L1. exact Hi1. }
     destruct k.
-    + (* import *)
-      pose proof (exec_body_post _ IH (content id) (cur :: st) p id
-                    (note (EvBody KImport p id) (set_cache [] s1)) Hc') as P.
-      cbn [loading note set_cache] in P. rewrite L1 in P. specialize (P Hi1 Hlp Hb).
-      destruct (exec_body _ p (content id) _) as [s2|e s2|]; cbn in P |- *; auto.
-      rewrite P; cbn [loading note set_cache]; rewrite L1. apply remove1_head. exact M.
-    + (* use *)
-      destruct (mem p (cache s1)).
+    + pose proof (B KImport (set_cache [] s1) eq_refl) as P.
+      destruct (exec_file _ _ KImport p id _) as [s2|e s2|]; cbn in P |- *; auto.
+      rewrite P, L1. apply remove1_head. exact M.
+    + destruct (mem p (cache s1)).
       * cbn. rewrite L1. apply remove1_head. exact M.
-      * pose proof (exec_body_post _ IH (content id) (cur :: st) p id (note (EvBody KUse p id) s1) Hc') as P.
-        cbn [loading note] in P. rewrite L1 in P. specialize (P Hi1 Hlp Hb).
-        destruct (exec_body _ p (content id) _) as [s2|e s2|]; cbn in P |- *; auto.
-        rewrite P; cbn [loading note set_cache]; rewrite L1. apply remove1_head. exact M.
-    + (* forward *)
-      destruct (mem p (cache s1)).
+      * pose proof (B KUse s1 eq_refl) as P.
+        destruct (exec_file _ _ KUse p id _) as [s2|e s2|]; cbn in P |- *; auto.
+        rewrite P, L1. apply remove1_head. exact M.
+    + destruct (mem p (cache s1)).
       * cbn. rewrite L1. apply remove1_head. exact M.
-      * pose proof (exec_body_post _ IH (content id) (cur :: st) p id (note (EvBody KForward p id) s1) Hc') as P.
-        cbn [loading note] in P. rewrite L1 in P. specialize (P Hi1 Hlp Hb).
-        destruct (exec_body _ p (content id) _) as [s2|e s2|]; cbn in P |- *; auto.
-        rewrite P; cbn [loading note set_cache]; rewrite L1. apply remove1_head. exact M.
-    + (* load-css: unlocked before the body runs *)
-      pose proof (exec_body_post _ IH (content id) (cur :: st) p id
-                    (note (EvBody KLoadCss p id) (unlock p s1)) Hc') as P.
-      cbn [loading note unlock set_loading] in P. rewrite L1, (remove1_head p _ M) in P.
-      specialize (P Hi2 Hlp Hb).
-      destruct (exec_body _ p (content id) _) as [s2|e s2|]; [|exact P|exact P].
-      cbn [post loading note unlock set_loading] in P |- *. rewrite P, L1. apply remove1_head. exact M.
-  - destruct (is_import k && plain_css u unq); cbn; auto.
+      * pose proof (B KForward s1 eq_refl) as P.
+        destruct (exec_file _ _ KForward p id _) as [s2|e s2|]; cbn in P |- *; auto.
+        rewrite P, L1. apply remove1_head. exact M.
+    + pose proof (B KLoadCss s1 eq_refl) as P.
+      destruct (exec_file _ _ KLoadCss p id _) as [s2|e s2|]; cbn in P |- *; auto.
+      rewrite P, L1. apply remove1_head. exact M.
+  - destruct F as (L & _). destruct (is_import k && plain_css u unq); cbn; auto.
   - destruct e; cbn; auto. destruct F as (p & id & R & M).
     exists st, cur, p. repeat split; auto.
     + apply Hi. apply mem_In. exact M.
@@ -182,10 +190,9 @@ Lemma run_post fuel rootid :
   end.
 Proof.
   intros Hl. unfold run.
-  pose proof (exec_body_post _ (load_post fuel) (content rootid) [] root rootid
-                (note (EvBody KImport root rootid) (st0 root)) chain_root) as P.
-  cbn [loading note st0] in P. specialize (P (fun x H => H) Hl (fun d H => H)).
-  destruct (exec_body _ root (content rootid) _) as [s|e s|]; cbn in P |- *; auto.
+  pose proof (exec_file_post _ (load_post fuel) KImport [] root rootid (st0 root) chain_root
+                (fun x H => H) Hl) as P.
+  destruct (exec_file _ _ KImport root rootid _) as [s|e s|]; cbn in P |- *; auto.
 Qed.
 
 (* a cycle witness is a cycle of the load graph that is reachable from the root *)
@@ -236,7 +243,311 @@ Proof.
   rewrite H in P. exact P.
 Qed.
 
-(* ---------- ranked (acyclic) graphs ---------- *)
+(* ================= completeness: css only from an acyclic graph ================= *)
+
+(* names whose body has been executed to its end, latest first *)
+Fixpoint fin (t : list event) : list string :=
+  match t with
+  | [] => []
+  | EvDone p :: r => p :: fin r
+  | _ :: r => fin r
+  end.
+
+(* when a file finished for the first time, everything it loads had finished before *)
+Definition ordered (l : list string) : Prop :=
+  forall l1 p l2, l = l1 ++ p :: l2 -> ~ In p l2 -> forall q, nedge p q -> In q l2.
+
+Definition kinv (s : state) : Prop := ordered (fin (trace s)) /\ incl (cache s) (fin (trace s)).
+
+Definition extends (a b : list string) : Prop := exists l, b = l ++ a.
+
+Lemma extends_refl a : extends a a.
+Proof. exists []. reflexivity. Qed.
+Lemma extends_trans a b c : extends a b -> extends b c -> extends a c.
+Proof. intros [l ->] [m ->]. exists (m ++ l). rewrite app_assoc. reflexivity. Qed.
+Lemma extends_incl a b : extends a b -> incl a b.
+Proof. intros [l ->] x Hx. apply in_or_app. right. exact Hx. Qed.
+
+Definition cpost (cur : string) (k : kind) (u : string) (s : state) (r : res) : Prop :=
+  match r with
+  | ROk s' => kinv s' /\ extends (fin (trace s)) (fin (trace s'))
+              /\ (forall q id, resolve_name (find_names cur k u) = Some (q, id) -> In q (fin (trace s')))
+  | _ => True
+  end.
+
+Definition cspec (loadf : bool -> string -> kind -> string -> state -> res) : Prop :=
+  forall unq cur k u s, kinv s -> cpost cur k u s (loadf unq cur k u s).
+
+Lemma exec_body_cpost loadf : cspec loadf ->
+  forall b cur s, kinv s ->
+    match exec_body loadf cur b s with
+    | ROk s' => kinv s' /\ extends (fin (trace s)) (fin (trace s'))
+                /\ (forall d k u q id, In d b -> dir_load d = Some (k, u) ->
+                      resolve_name (find_names cur k u) = Some (q, id) -> In q (fin (trace s')))
+    | _ => True
+    end.
+Proof.
+  intros HL b. induction b as [|d r IH]; intros cur s K; cbn [exec_body].
+  - split; [exact K|split; [apply extends_refl|]]. intros d k u q id [].
+  - assert (Step : forall unq k u, dir_load d = Some (k, u) ->
+              match (match loadf unq cur k u s with ROk s' => exec_body loadf cur r s' | e => e end) with
+              | ROk s' => kinv s' /\ extends (fin (trace s)) (fin (trace s'))
+                          /\ (forall d0 k0 u0 q id, In d0 (d :: r) -> dir_load d0 = Some (k0, u0) ->
+                                resolve_name (find_names cur k0 u0) = Some (q, id) -> In q (fin (trace s')))
+              | _ => True
+              end).
+    { intros unq k u Hd. pose proof (HL unq cur k u s K) as P.
+      destruct (loadf unq cur k u s) as [s1|e s1|]; auto. destruct P as (K1 & E1 & Q1).
+      specialize (IH cur s1 K1). destruct (exec_body loadf cur r s1) as [s2|e s2|]; auto.
+      destruct IH as (K2 & E2 & Q2). split; [exact K2|split; [eapply extends_trans; eauto|]].
+      intros d0 k0 u0 q id [<-|Hin] Hd0 Hr.
+      - rewrite Hd in Hd0. inversion Hd0; subst k0 u0. apply (extends_incl _ _ E2). eapply Q1; eauto.
+      - eapply Q2; eauto. }
+    destruct d as [k u|x|m].
+    + apply (Step false k u eq_refl).
+    + apply (Step true KImport x eq_refl).
+    + specialize (IH cur (emit m s) K). destruct (exec_body loadf cur r (emit m s)) as [s2|e s2|]; auto.
+      destruct IH as (K2 & E2 & Q2). split; [exact K2|split; [exact E2|]].
+      intros d0 k0 u0 q id [<-|Hin] Hd0 Hr; [discriminate|eapply Q2; eauto].
+Qed.
+
+Lemma ordered_cons p l :
+  ordered l -> (~ In p l -> forall q, nedge p q -> In q l) -> ordered (p :: l).
+Proof.
+  intros O Hp l1 x l2 E Hx q Hq. destruct l1 as [|y l1]; cbn in E; inversion E; subst.
+  - apply Hp; assumption.
+  - eapply O; eauto.
+Qed.
+
+Lemma exec_file_cpost loadf : cspec loadf ->
+  forall k p id s1, kinv s1 -> lookup p = Some id ->
+    match exec_file content loadf k p id s1 with
+    | ROk s2 => ordered (fin (trace s2)) /\ incl (cache s2) (fin (trace s2))
+                /\ extends (fin (trace s1)) (fin (trace s2)) /\ In p (fin (trace s2))
+                /\ (exists l, fin (trace s2) = p :: l /\ extends (fin (trace s1)) l)
+    | _ => True
+    end.
+Proof.
+  intros HL k p id s1 K Hl. unfold exec_file.
+  assert (K0 : kinv (note (EvBody k p id) s1)) by exact K.
+  pose proof (exec_body_cpost _ HL (content id) p _ K0) as P.
+  destruct (exec_body loadf p (content id) _) as [s2|e s2|]; auto.
+  destruct P as ((O2 & C2) & E2 & Q2). cbn [trace note fin] in E2 |- *.
+  repeat split.
+  - apply ordered_cons; [exact O2|]. intros _ q (idc & d & kk & u & idq & Hlc & Hd & Hk & Hr).
+    rewrite Hl in Hlc. inversion Hlc; subst idc. eapply Q2; eauto.
+  - intros x Hx. right. apply C2. exact Hx.
+  - destruct E2 as [l ->]. exists (p :: l). reflexivity.
+  - left. reflexivity.
+  - exists (fin (trace s2)). split; [reflexivity|exact E2].
+Qed.
+
+Lemma load_cpost fuel : cspec (load orc content fuel).
+Proof.
+  induction fuel as [|f IH]; intros unq cur k u s K; cbn [load]; [exact I|].
+  pose proof (find_file_cases cur k u s) as F.
+  destruct (find_file orc cur k u s) as [p id s1|s1|e s1]; [| |exact I].
+  - destruct F as (L1 & M & C1 & T1 & R). destruct K as (O & C).
+    assert (Hlp : lookup p = Some id) by (eapply resolve_name_lookup; eauto).
+    assert (Q : forall l, In p l -> forall q id0, resolve_name (find_names cur k u) = Some (q, id0) -> In q l).
+    { intros l Hp q id0 Hq. rewrite R in Hq. inversion Hq; subst. exact Hp. }
+    assert (B : forall kk s0, trace s0 = trace s1 -> incl (cache s0) (fin (trace s0)) ->
+              match exec_file content (load orc content f) kk p id s0 with
+              | ROk s2 => ordered (fin (trace s2)) /\ incl (cache s2) (fin (trace s2))
+                          /\ extends (fin (trace s)) (fin (trace s2)) /\ In p (fin (trace s2))
+              | _ => True end).
+    { intros kk s0 Et Ec.
+      assert (K0 : kinv s0) by (split; [rewrite Et, T1; exact O|exact Ec]).
+      pose proof (exec_file_cpost _ IH kk p id s0 K0 Hlp) as P.
+      destruct (exec_file _ _ kk p id s0); auto. destruct P as (P1 & P2 & P3 & P4 & _).
+      rewrite Et, T1 in P3. auto. }
+    destruct k.
+    + (* import: fresh cache for the body, the old one comes back *)
+      pose proof (B KImport (set_cache [] s1) eq_refl (fun x H => match H with end)) as P.
+      destruct (exec_file _ _ KImport p id _) as [s2|e s2|]; auto.
+      destruct P as (P1 & P2 & P3 & P4). unfold cpost, kinv; cbn [trace cache unlock set_cache set_loading]. repeat split; auto.
+      * intros x Hx. rewrite C1 in Hx. apply (extends_incl _ _ P3). apply C. exact Hx.
+      * apply Q. exact P4.
+    + destruct (mem p (cache s1)) eqn:Mc.
+      * unfold cpost, kinv; cbn [trace cache unlock note set_loading fin]. rewrite T1, C1. repeat split; auto.
+        -- apply extends_refl.
+        -- apply Q. apply C. apply mem_In. rewrite <- C1. exact Mc.
+      * pose proof (B KUse s1 eq_refl) as P. rewrite C1, T1 in P. specialize (P C).
+        destruct (exec_file _ _ KUse p id _) as [s2|e s2|]; auto.
+        destruct P as (P1 & P2 & P3 & P4). unfold cpost, kinv; cbn [trace cache unlock add_cache set_cache set_loading].
+        repeat split; auto.
+        intros x [<-|Hx]; [exact P4|apply P2; exact Hx].
+    + destruct (mem p (cache s1)) eqn:Mc.
+      * unfold cpost, kinv; cbn [trace cache unlock note set_loading fin]. rewrite T1, C1. repeat split; auto.
+        -- apply extends_refl.
+        -- apply Q. apply C. apply mem_In. rewrite <- C1. exact Mc.
+      * pose proof (B KForward s1 eq_refl) as P. rewrite C1, T1 in P. specialize (P C).
+        destruct (exec_file _ _ KForward p id _) as [s2|e s2|]; auto.
+        destruct P as (P1 & P2 & P3 & P4). unfold cpost, kinv; cbn [trace cache unlock add_cache set_cache set_loading].
+        repeat split; auto.
+        intros x [<-|Hx]; [exact P4|apply P2; exact Hx].
+    + pose proof (B KLoadCss s1 eq_refl) as P. rewrite C1, T1 in P. specialize (P C).
+      destruct (exec_file _ _ KLoadCss p id _) as [s2|e s2|]; auto.
+      destruct P as (P1 & P2 & P3 & P4). unfold cpost, kinv; cbn [trace cache unlock set_loading]. repeat split; auto.
+  - destruct F as (L & C1 & T1 & R). destruct K as (O & C).
+    destruct (is_import k && plain_css u unq); [|exact I].
+    unfold cpost, kinv; cbn [trace cache push_import]. rewrite T1, C1. repeat split; auto.
+    + apply extends_refl.
+    + intros q id Hq. rewrite R in Hq. discriminate.
+Qed.
+
+Lemma in_split_last (x : string) l : In x l -> exists l1 l2, l = l1 ++ x :: l2 /\ ~ In x l2.
+Proof.
+  induction l as [|a r IH]; [intros []|]. intros H.
+  destruct (in_dec string_dec x r) as [Hr|Hr].
+  - destruct (IH Hr) as (l1 & l2 & -> & N). exists (a :: l1), l2. auto.
+  - destruct H as [->|H]; [|contradiction]. exists [], r. auto.
+Qed.
+
+(* descendants of a finished file finished strictly earlier *)
+Lemma ordered_desc l : ordered l ->
+  forall n l1 p l2, List.length l2 <= n -> l = l1 ++ p :: l2 -> ~ In p l2 ->
+    forall q, clos_trans _ nedge p q -> In q l2.
+Proof.
+  intros O n. induction n as [|n IH]; intros l1 p l2 Hn E Np q Hq.
+  - destruct l2; [|cbn in Hn; lia]. apply clos_trans_t1n in Hq. destruct Hq as [y Hy|y z Hy _];
+      exact (O l1 p [] E Np y Hy).
+  - apply clos_trans_t1n in Hq. destruct Hq as [y Hy|y z Hy Hrest].
+    + exact (O l1 p l2 E Np y Hy).
+    + pose proof (O l1 p l2 E Np y Hy) as Hin.
+      apply in_split_last in Hin as (m1 & m2 & -> & Ny).
+      assert (Hz : In z m2).
+      { apply (IH (l1 ++ p :: m1) y m2).
+        - rewrite app_length in Hn. cbn in Hn. lia.
+        - rewrite E. rewrite <- app_assoc. reflexivity.
+        - exact Ny.
+        - apply clos_t1n_trans. exact Hrest. }
+      apply in_or_app. right. right. exact Hz.
+Qed.
+
+Lemma ordered_acyclic l : ordered l -> forall p, In p l -> ~ clos_trans _ nedge p p.
+Proof.
+  intros O p Hp C. apply in_split_last in Hp as (l1 & l2 & E & N).
+  apply N. eapply (ordered_desc l O (List.length l2)); eauto.
+Qed.
+
+(* css is returned only if nothing reachable from the root lies on a cycle of the load graph *)
+Theorem ok_acyclic fuel rootid s :
+  lookup root = Some rootid ->
+  run orc content fuel root rootid = ROk s ->
+  forall p, clos_refl_trans _ nedge root p -> ~ clos_trans _ nedge p p.
+Proof.
+  intros Hl H p Hp. unfold run in H.
+  assert (K0 : kinv (st0 root)).
+  { split; [|intros x []]. intros l1 x l2 E. destruct l1; discriminate. }
+  pose proof (exec_file_cpost _ (load_cpost fuel) KImport root rootid (st0 root) K0 Hl) as P.
+  destruct (exec_file _ _ KImport root rootid _) as [s2|e s2|]; [|discriminate|discriminate].
+  destruct P as (O & _ & _ & Hr & _).
+  assert (In p (fin (trace s2))).
+  { apply clos_rt_rtn1 in Hp. destruct Hp as [|y z Hy Hrest]; [exact Hr|].
+    apply in_split_last in Hr as (l1 & l2 & E & N).
+    assert (Hz : In z l2).
+    { eapply (ordered_desc _ O (List.length l2)); eauto.
+      apply clos_rtn1_rt in Hrest. eapply rt_t_step; eauto. }
+    rewrite E. apply in_or_app. right. right. exact Hz. }
+  eapply ordered_acyclic; eauto.
+Qed.
+
+(* ================= termination ================= *)
+
+Variable U : list string.                       (* the names the loader knows: a finite file set *)
+Hypothesis finite : forall p id, lookup p = Some id -> In p U.
+
+Definition room (f : nat) (s : state) : Prop := List.length U + 2 <= f + List.length (loading s).
+
+Definition tpost (s : state) (r : res) : Prop :=
+  match r with RFuel => False | ROk s' => loading s' = loading s | RErr _ _ => True end.
+
+Definition tspec (f : nat) (loadf : bool -> string -> kind -> string -> state -> res) : Prop :=
+  forall unq cur k u s, NoDup (loading s) -> incl (loading s) (root :: U) -> room f s ->
+    tpost s (loadf unq cur k u s).
+
+Lemma exec_body_tpost f loadf : tspec f loadf ->
+  forall b cur s, NoDup (loading s) -> incl (loading s) (root :: U) -> room f s ->
+    tpost s (exec_body loadf cur b s).
+Proof.
+  intros HL b. induction b as [|d r IH]; intros cur s N I R; cbn [exec_body]; [reflexivity|].
+  assert (Step : forall unq k u,
+            tpost s (match loadf unq cur k u s with ROk s' => exec_body loadf cur r s' | e => e end)).
+  { intros unq k u. pose proof (HL unq cur k u s N I R) as P.
+    destruct (loadf unq cur k u s) as [s1|e s1|]; auto. cbn in P.
+    assert (R1 : room f s1) by (unfold room in *; rewrite P; exact R).
+    specialize (IH cur s1). rewrite P in IH. specialize (IH N I R1).
+    unfold tpost in *. destruct (exec_body loadf cur r s1); auto. congruence. }
+  destruct d as [k u|x|m]; [apply Step|apply Step|].
+  apply (IH cur (emit m s)); assumption.
+Qed.
+
+Lemma load_tpost f : tspec f (load orc content f).
+Proof.
+  induction f as [|f IH]; intros unq cur k u s N I R.
+  - exfalso. unfold room in R. pose proof (NoDup_incl_length N I) as L. cbn in L, R. lia.
+  - cbn [load]. pose proof (find_file_cases cur k u s) as F.
+    destruct (find_file orc cur k u s) as [p id s1|s1|e s1]; [| |exact Logic.I].
+    + destruct F as (L1 & M & C1 & T1 & Rn).
+      assert (Hlp : lookup p = Some id) by (eapply resolve_name_lookup; eauto).
+      assert (B : forall kk s0, loading s0 = loading s1 ->
+                tpost s0 (exec_file content (load orc content f) kk p id s0)).
+      { intros kk s0 E. unfold exec_file.
+        pose proof (exec_body_tpost f _ IH (content id) p (note (EvBody kk p id) s0)) as P.
+        cbn [loading note] in P. rewrite E, L1 in P.
+        assert (N1 : NoDup (p :: loading s)).
+        { constructor; [|exact N]. intros Hin. apply mem_In in Hin. congruence. }
+        assert (I1 : incl (p :: loading s) (root :: U)).
+        { intros x [<-|Hx]; [right; eapply finite; eauto|apply I; exact Hx]. }
+        assert (R1 : room f (note (EvBody kk p id) s0)).
+        { unfold room in *. cbn [loading note]. rewrite E, L1. cbn. lia. }
+        unfold room in R1. cbn [loading note] in R1. rewrite E, L1 in R1.
+        specialize (P N1 I1 R1).
+        destruct (exec_body _ p (content id) _); cbn in P |- *; auto. rewrite P, E, L1. reflexivity. }
+      destruct k.
+      * pose proof (B KImport (set_cache [] s1) eq_refl) as P.
+        destruct (exec_file _ _ KImport p id _); cbn in P |- *; auto. rewrite P, L1. apply remove1_head. exact M.
+      * destruct (mem p (cache s1)); [cbn; rewrite L1; apply remove1_head; exact M|].
+        pose proof (B KUse s1 eq_refl) as P.
+        destruct (exec_file _ _ KUse p id _); cbn in P |- *; auto. rewrite P, L1. apply remove1_head. exact M.
+      * destruct (mem p (cache s1)); [cbn; rewrite L1; apply remove1_head; exact M|].
+        pose proof (B KForward s1 eq_refl) as P.
+        destruct (exec_file _ _ KForward p id _); cbn in P |- *; auto. rewrite P, L1. apply remove1_head. exact M.
+      * pose proof (B KLoadCss s1 eq_refl) as P.
+        destruct (exec_file _ _ KLoadCss p id _); cbn in P |- *; auto. rewrite P, L1. apply remove1_head. exact M.
+    + destruct F as (L & _). destruct (is_import k && plain_css u unq); cbn; auto.
+Qed.
+
+(* |U|+1 nested loads are always enough: the compilation terminates *)
+Theorem terminates rootid : run orc content (S (List.length U)) root rootid <> RFuel.
+Proof.
+  unfold run, exec_file.
+  pose proof (exec_body_tpost _ _ (load_tpost (S (List.length U))) (content rootid) root
+                (note (EvBody KImport root rootid) (st0 root))) as P.
+  cbn [loading note st0] in P.
+  assert (N : NoDup [root]) by (constructor; [intros []|constructor]).
+  assert (I : incl [root] (root :: U)) by (intros x [<-|[]]; left; reflexivity).
+  assert (R : room (S (List.length U)) (note (EvBody KImport root rootid) (st0 root))).
+  { unfold room. cbn. lia. }
+  specialize (P N I R).
+  destruct (exec_body _ root (content rootid) _); cbn in P |- *; [discriminate|discriminate|contradiction].
+Qed.
+
+(* loop completeness: a cycle reachable from the root is reported as an error, never absorbed into
+   css and never a divergence *)
+Theorem loop_complete rootid p :
+  lookup root = Some rootid ->
+  clos_refl_trans _ nedge root p -> clos_trans _ nedge p p ->
+  exists e s, run orc content (S (List.length U)) root rootid = RErr e s.
+Proof.
+  intros Hl Hr Hc. destruct (run orc content (S (List.length U)) root rootid) as [s|e s|] eqn:E.
+  - exfalso. exact (ok_acyclic _ rootid s Hl E p Hr Hc).
+  - eauto.
+  - exfalso. exact (terminates rootid E).
+Qed.
+
+(* ================= ranked graphs (kept from before the fixes) ================= *)
 
 Variable rank : string -> nat.
 Hypothesis ranked : forall c p, nedge c p -> rank p < rank c.
@@ -250,247 +561,4 @@ Proof.
   intros Hl H. apply loop_sound in H as (p & _ & C); auto. apply ranked_trans in C. lia.
 Qed.
 
-Definition no_fuel_load (bound : nat) (loadf : bool -> string -> kind -> string -> state -> res) : Prop :=
-  forall unq cur idc d k u s,
-    lookup cur = Some idc -> In d (content idc) -> dir_load d = Some (k, u) -> rank cur < bound ->
-    loadf unq cur k u s <> RFuel.
-
-Lemma exec_body_no_fuel bound loadf : no_fuel_load bound loadf ->
-  forall b cur idc s, lookup cur = Some idc -> (forall d, In d b -> In d (content idc)) -> rank cur < bound ->
-    exec_body loadf cur b s <> RFuel.
-Proof.
-  intros HL b. induction b as [|d r IH]; intros cur idc s Hl Hb Hr; cbn [exec_body]; [discriminate|].
-  assert (Hrr : forall d0, In d0 r -> In d0 (content idc)) by (intros; apply Hb; right; assumption).
-  destruct d as [k u|x|m].
-  - pose proof (HL false cur idc (DLoad k u) k u s Hl (Hb _ (or_introl eq_refl)) eq_refl Hr) as P.
-    destruct (loadf false cur k u s); [eapply IH; eauto|discriminate|congruence].
-  - pose proof (HL true cur idc (DImportUrl x) KImport x s Hl (Hb _ (or_introl eq_refl)) eq_refl Hr) as P.
-    destruct (loadf true cur KImport x s); [eapply IH; eauto|discriminate|congruence].
-  - eapply IH; eauto.
-Qed.
-
-Lemma load_no_fuel fuel : no_fuel_load fuel (load orc content fuel).
-Proof.
-  induction fuel as [|f IH]; intros unq cur idc d k u s Hl Hd Hk Hr; [lia|]. cbn [load].
-  pose proof (find_file_cases cur k u s) as F.
-  destruct (find_file orc cur k u s) as [p id s1|s1|e s1]; [|destruct (is_import k && plain_css u unq); discriminate|discriminate].
-  destruct F as (_ & _ & R).
-  assert (Hedge : nedge cur p) by (exists idc, d, k, u, id; auto).
-  assert (Hlp : lookup p = Some id) by (eapply resolve_name_lookup; eauto).
-  assert (Hrp : rank p < f) by (apply ranked in Hedge; lia).
-  assert (B : forall s0, exec_body (load orc content f) p (content id) s0 <> RFuel)
-    by (intros s0; eapply exec_body_no_fuel; eauto).
-  destruct k.
-  - specialize (B (note (EvBody KImport p id) (set_cache [] s1))). destruct (exec_body _ p _ _); congruence.
-  - destruct (mem p (cache s1)); [discriminate|].
-    specialize (B (note (EvBody KUse p id) s1)). destruct (exec_body _ p _ _); congruence.
-  - destruct (mem p (cache s1)); [discriminate|].
-    specialize (B (note (EvBody KForward p id) s1)). destruct (exec_body _ p _ _); congruence.
-  - apply B.
-Qed.
-
-Theorem acyclic_terminates fuel rootid :
-  lookup root = Some rootid -> rank root < fuel -> run orc content fuel root rootid <> RFuel.
-Proof.
-  intros Hl Hr. unfold run.
-  pose proof (exec_body_no_fuel fuel _ (load_no_fuel fuel) (content rootid) root rootid
-                (note (EvBody KImport root rootid) (st0 root)) Hl (fun d H => H) Hr) as P.
-  destruct (exec_body _ root _ _); congruence.
-Qed.
-
 End Sound.
-
-(* ---------- the full statement is false: two witnesses ---------- *)
-
-(* F6: a file loaded by meta.load-css that load-css'es itself is unlocked before its body runs *)
-Definition w_loadcss : world :=
-  [("t.scss", [DLoad KLoadCss "a"]); ("a.scss", [DLoad KLoadCss "a"])].
-
-Lemma loadcss_step n : forall s, loading s = ["t.scss"] ->
-  load (mem_oracle w_loadcss NoFault) (assoc_body w_loadcss) n false "a.scss" KLoadCss "a" s = RFuel.
-Proof.
-  induction n as [|n IH]; intros s Hs; [reflexivity|].
-  destruct s as [l c o i cl tr]. cbn in Hs. subst l.
-  cbn [load]. unfold find_file.
-  change (find_names "a.scss" KLoadCss "a")
-    with (ltac:(let v := eval vm_compute in (find_names "a.scss" KLoadCss "a") in exact v)).
-  cbn. rewrite IH; reflexivity.
-Qed.
-
-Lemma refuted_loadcss : forall n,
-  run (mem_oracle w_loadcss NoFault) (assoc_body w_loadcss) n "t.scss" "t.scss" = RFuel.
-Proof.
-  intros [|n]; [reflexivity|]. unfold run. cbn [assoc_body w_loadcss String.eqb Ascii.eqb Bool.eqb exec_body].
-  cbn [load]. unfold find_file.
-  change (find_names "t.scss" KLoadCss "a")
-    with (ltac:(let v := eval vm_compute in (find_names "t.scss" KLoadCss "a") in exact v)).
-  cbn. rewrite loadcss_step; reflexivity.
-Qed.
-
-(* F5: `@import "./t"` in t.scss: the key grows (./t.scss, ././t.scss, ..), no loop error *)
-Definition w_spelling : world := [("t.scss", [DLoad KImport "./t"])].
-
-Definition is_fuel (r : res) : bool := match r with RFuel => true | _ => false end.
-
-Lemma refuted_spelling_bounded :
-  forallb (fun n => is_fuel (run (oracle_of w_spelling MNorm) (assoc_body w_spelling) n "t.scss" "t.scss")) (seq 0 41) = true.
-Proof. vm_compute. reflexivity. Qed.
-
-Lemma refuted_spelling_partial : forall n, n <= 40 ->
-  run (oracle_of w_spelling MNorm) (assoc_body w_spelling) n "t.scss" "t.scss" = RFuel.
-Proof.
-  intros n Hn. pose proof (sweep1 _ _ refuted_spelling_bounded n) as H.
-  assert (Hin : In n (seq 0 41)) by (apply in_seq; lia). specialize (H Hin). cbv beta in H.
-  destruct (run _ _ n _ _); try discriminate. reflexivity.
-Qed.
-
-(* F5 for EVERY fuel: the key of the k-th nested load is (./)^k t.scss, never locked before *)
-Fixpoint dots (k : nat) : string := match k with O => "" | S k' => ("./" ++ dots k')%string end.
-Definition key (k : nat) : string := (dots k ++ "t.scss")%string.
-
-Lemma split_dir_dot r : split_dir ("./" ++ r)%string = (("./" ++ fst (split_dir r))%string, snd (split_dir r)).
-Proof.
-  cbn [append split_dir]. destruct (split_dir r) as [b n]. cbn [fst snd].
-  destruct (String.eqb b "") eqn:E.
-  - apply String.eqb_eq in E. subst b. reflexivity.
-  - cbn. reflexivity.
-Qed.
-
-Lemma split_dir_dots m x : split_dir (dots m ++ x)%string = ((dots m ++ fst (split_dir x))%string, snd (split_dir x)).
-Proof.
-  induction m as [|m IH]; cbn [dots append].
-  - destruct (split_dir x); reflexivity.
-  - change (String "." (String "/" (dots m ++ x)%string)) with ("./" ++ (dots m ++ x))%string.
-    rewrite split_dir_dot, IH. reflexivity.
-Qed.
-
-Lemma segments_dot r : segments ("./" ++ r)%string = "." :: segments r.
-Proof. reflexivity. Qed.
-
-Lemma isfile_dot files r : fs_isfile files ("./" ++ r)%string = fs_isfile files r.
-Proof. unfold fs_isfile. rewrite segments_dot. reflexivity. Qed.
-
-Lemma isfile_dots files m x : fs_isfile files (dots m ++ x)%string = fs_isfile files x.
-Proof.
-  induction m as [|m IH]; cbn [dots append]; [reflexivity|].
-  change (String "." (String "/" (dots m ++ x)%string)) with ("./" ++ (dots m ++ x))%string.
-  rewrite isfile_dot. exact IH.
-Qed.
-
-Lemma dots_shift k x : (dots k ++ "./" ++ x)%string = (dots (S k) ++ x)%string.
-Proof.
-  induction k as [|k IH]; [reflexivity|].
-  cbn [dots append] in *. rewrite IH. reflexivity.
-Qed.
-
-Lemma length_dots k x : String.length (dots k ++ x)%string = 2 * k + String.length x.
-Proof. induction k as [|k IH]; cbn [dots append String.length]; [reflexivity|]. rewrite IH. lia. Qed.
-
-Lemma key_neq j k : j <= k -> key (S k) <> key j.
-Proof.
-  intros H E. apply (f_equal String.length) in E. unfold key in E. rewrite !length_dots in E. lia.
-Qed.
-
-Lemma mem_false p l : (forall x, In x l -> x <> p) -> mem p l = false.
-Proof.
-  induction l as [|y r IH]; intros H; cbn; [reflexivity|].
-  rewrite IH by (intros; apply H; right; assumption).
-  assert (p <> y) by (intros ->; apply (H y); [left; reflexivity|reflexivity]).
-  apply String.eqb_neq in H0. rewrite H0. reflexivity.
-Qed.
-
-Lemma ends_with_cons c r suf : ends_with r suf = true -> ends_with (String c r) suf = true.
-Proof. intros H. cbn [ends_with]. destruct (String.eqb (String c r) suf); [reflexivity|exact H]. Qed.
-
-Lemma ends_with_dots_true m x suf : ends_with x suf = true -> ends_with (dots m ++ x)%string suf = true.
-Proof.
-  intros H. induction m as [|m IH]; cbn [dots append]; [exact H|].
-  apply ends_with_cons, ends_with_cons. exact IH.
-Qed.
-
-Lemma not_direct m : is_direct (dots m ++ "t")%string = false.
-Proof.
-  unfold is_direct. cbn [direct_suffixes existsb].
-  induction m as [|m IH]; [reflexivity|].
-  cbn [dots append]. cbn [ends_with String.eqb Ascii.eqb Bool.eqb andb]. exact IH.
-Qed.
-
-Definition files_t : list string := ["t.scss"].
-Definition lk (u : string) : option string := fs_lookup files_t [""] u.
-
-Lemma lk_dots m x : x <> "" -> lk (dots m ++ x)%string = fs_isfile files_t x.
-Proof.
-  intros Hx. unfold lk, fs_lookup, fs_find.
-  assert (E : String.eqb (dots m ++ x)%string "" = false).
-  { apply String.eqb_neq. intros E. apply (f_equal String.length) in E. rewrite length_dots in E.
-    destruct x; [congruence|cbn in E; lia]. }
-  rewrite E. cbn [first_some join String.eqb]. rewrite isfile_dots. destruct (fs_isfile files_t x); reflexivity.
-Qed.
-
-Definition suffixes : list string :=
-  ["t.import.scss"; "_t.import.scss"; "t.scss"; "_t.scss"; "t/index.import.scss"; "t/_index.import.scss";
-   "t/index.scss"; "t/_index.scss"; "t.css"; "_t.css"].
-
-Lemma app_nil_r_str (s : string) : (s ++ "")%string = s.
-Proof. induction s; cbn; congruence. Qed.
-
-Lemma probe_key k :
-  exists rest, find_names (key k) KImport "./t" = map (fun suf => (dots (S k) ++ suf)%string) suffixes ++ rest.
-Proof.
-  unfold find_names. eexists. f_equal.
-  unfold relative, key. rewrite split_dir_dots. cbn [fst]. change (fst (split_dir "t.scss")) with "".
-  rewrite app_nil_r_str. change "./t" with ("./" ++ "t")%string. rewrite (dots_shift k "t").
-  unfold probe_names. rewrite not_direct, split_dir_dots.
-  change (split_dir "t") with ("", "t"). cbn [fst snd]. rewrite app_nil_r_str.
-  reflexivity.
-Qed.
-
-Lemma try3 lookup s a b c rest id :
-  lookup a = None -> lookup b = None -> lookup c = Some id ->
-  try_names (orc_of lookup) s (a :: b :: c :: rest) = FFound c id true (called c (called b (called a s))).
-Proof. intros H1 H2 H3. cbn [try_names]. unfold orc_of. rewrite H1, H2, H3. reflexivity. Qed.
-
-Definition inv5 (k : nat) (s : state) : Prop := forall x, In x (loading s) -> exists j, j <= k /\ x = key j.
-
-Lemma find_step k s : inv5 k s ->
-  exists s1, find_file (orc_of lk) (key k) KImport "./t" s = LFile (key (S k)) "t.scss" s1
-             /\ loading s1 = key (S k) :: loading s.
-Proof.
-  intros I. unfold find_file. destruct (probe_key k) as [rest ->]. unfold suffixes. cbn [map app].
-  rewrite (try3 lk s _ _ _ _ "t.scss").
-  - fold (key (S k)).
-    assert (K : known_format (key (S k)) = true).
-    { unfold known_format, key. rewrite ends_with_dots_true by reflexivity. reflexivity. }
-    rewrite K. cbn [negb loading called].
-    rewrite mem_false.
-    + eexists. split; [reflexivity|]. reflexivity.
-    + intros x Hx E. subst x. apply I in Hx as (j & Hj & Ej). exact (key_neq j k Hj Ej).
-  - rewrite lk_dots by discriminate. vm_compute. reflexivity.
-  - rewrite lk_dots by discriminate. vm_compute. reflexivity.
-  - rewrite lk_dots by discriminate. vm_compute. reflexivity.
-Qed.
-
-Lemma orc_spelling : oracle_of w_spelling MNorm = orc_of lk.
-Proof. reflexivity. Qed.
-
-Lemma diverge n : forall k s, inv5 k s ->
-  load (orc_of lk) (assoc_body w_spelling) n false (key k) KImport "./t" s = RFuel.
-Proof.
-  induction n as [|n IH]; intros k s I; [reflexivity|].
-  cbn [load]. destruct (find_step k s I) as (s1 & F & L1). rewrite F.
-  change (assoc_body w_spelling "t.scss") with [DLoad KImport "./t"]. cbn [exec_body].
-  rewrite (IH (S k)); [reflexivity|].
-  intros x Hx. cbn [loading note set_cache] in Hx. rewrite L1 in Hx. destruct Hx as [<-|Hx].
-  - exists (S k). split; [lia|reflexivity].
-  - apply I in Hx as (j & Hj & ->). exists j. split; [lia|reflexivity].
-Qed.
-
-Lemma refuted_spelling_all : forall n,
-  run (oracle_of w_spelling MNorm) (assoc_body w_spelling) n "t.scss" "t.scss" = RFuel.
-Proof.
-  intros n. rewrite orc_spelling. unfold run.
-  change (assoc_body w_spelling "t.scss") with [DLoad KImport "./t"]. cbn [exec_body].
-  change "t.scss" with (key 0) at 1.
-  rewrite diverge; [reflexivity|].
-  intros x [<-|[]]. exists 0. split; [lia|reflexivity].
-Qed.
